@@ -55,7 +55,7 @@ def main():
             "guard": "SIGNAC_VERIF",
             "enable": "no source hooks exist: all interposition (fs shim, step gating) is done from /verif by patching module attributes inside forked children; nothing in /repo reads the guard",
             "baseline_off_cmd": "cd /repo && /venv/bin/python -m pytest -ra -q -p no:cacheprovider --timeout=900 --continue-on-collection-errors",
-            "source_commits": fix_commits,
+            "source_commits": [],  # no hook commits exist; the unguarded "fix:" repairs are listed under notes
             "add_only": True,
         },
         "engines": [
@@ -67,7 +67,8 @@ def main():
             }
         ],
         "checks": checks,
-        "notes": "Every check: exit 0 held / 1 VIOLATION / 2 harness error. VERIF_SEED seeds all generation. Known findings in known_findings.json; seeded mutants in seeded/; sensitivity mutants in tools/mutants/.",
+        "notes": "Every check: exit 0 held / 1 VIOLATION / 2 harness error. VERIF_SEED seeds all generation. Known findings in known_findings.json; seeded mutants in seeded/; sensitivity mutants in tools/mutants/. "
+        "No hook commits in /repo. Unguarded repairs of genuine defects (commit messages start with 'fix:'; recorded as 'fixed' in known_findings.json): " + ", ".join(fix_commits) + ".",
         "not_applicable": na,
     }
     with open(os.path.join(VERIF, "MANIFEST.json"), "w") as f:
